@@ -660,7 +660,7 @@ func init() {
 			"newline Ctrl-Z multi-byte runes SQL keywords `$1`), int64 incl. extremes, finite float64 incl. tiny/huge, bool, nil. Oracle: the library " +
 			"parser's canonical form of SanitizeSQL(T,args) equals that of T with each placeholder replaced by the harness's own MySQL-correct literal (numeric literals compared by value, comments ignored), and every comment the library's tokenizer finds in the sanitized text is, verbatim and in order, a comment of the template. " +
 			"Echo mode: `SELECT $1 AS v FROM dual` (or two arguments, under PostgresEscapingDialect / IdiomaticArrays in half of those) executed through New/Exec returns exactly the argument(s). Err mode: missing argument, unused " +
-			"argument (anywhere in the list, incl. a gap of the placeholder numbering), `$0` -> error, no panic. Non-trivial: a string argument containing ' \\ \" ` -- /* # NUL or a multi-byte rune, or a decoy present, or err mode.",
+			"argument (anywhere in the list, incl. a gap of the placeholder numbering), `$0` -> error, no panic. Half of the cases are preceded by an unjudged call of the same template with the same or with look-alike arguments (other types, other boundaries between arguments, same %v text). Non-trivial: a string argument containing ' \\ \" ` -- /* # NUL or a multi-byte rune, or a decoy present, or err mode.",
 		Assumptions: []string{
 			"arguments are strings (any byte sequence, a tenth of them not valid UTF-8), int64, finite float64, bool or nil (the types the statement lists)",
 			"placeholders are separated from neighbouring tokens by an operator, comma, parenthesis or white space; comments contain no backslash or carriage return",
